@@ -168,8 +168,8 @@ def plan(pid, tier, seed, fx):
                   "g_alias_async", "s_res_lru2", "a_res_lru2", "s_lru_unb", "a_arc_unb", "s_tlru_unb", "a_yield"):
             A = [call(f, 1), call(f, 2), call(f, 3), {"op": "inv_with", "x": fx[f]["cache_name"], "sel": ["1", "2"]}]
             for pre in prefixes(fx, f)[:3]:
-                jobs.append({"fixtures": [f], "prefix": pre, "programs": programs(rng, A, 3 if thorough else 2, 2, 400 if thorough else 20),
-                             "strategy": {"kind": "dfs", "max_schedules": 600 if thorough else 40, "preempt": 2},
+                jobs.append({"fixtures": [f], "prefix": pre, "programs": programs(rng, A, 3 if thorough else 2, 2, 120 if thorough else 20),
+                             "strategy": {"kind": "dfs", "max_schedules": 300 if thorough else 40, "preempt": 2},
                              "probe": [{"op": "stats_get", "x": fx[f]["cache_name"]}], "hang_ms": 20000})
     return jobs
 
